@@ -114,7 +114,15 @@ func genHostile(r *rand.Rand, enc *json.Encoder, cfg Cfg, id int, depth int) {
 	m := append([]byte{}, data...)
 	nm := 1 + r.Intn(3)
 	for j := 0; j < nm; j++ {
-		switch r.Intn(5) {
+		switch r.Intn(6) {
+		case 5:
+			// a stretch of the message occurs twice (a field repeated, an entry repeated)
+			if len(m) > 1 {
+				at := r.Intn(len(m) - 1)
+				n := 1 + r.Intn(len(m)-at-1)
+				dup := append([]byte{}, m[at:at+n]...)
+				m = append(append(append([]byte{}, m[:at+n]...), dup...), m[at+n:]...)
+			}
 		case 0:
 			m = m[:r.Intn(len(m)+1)]
 		case 1:
